@@ -224,7 +224,44 @@ fn codec_scenario(r: &mut Rng) -> Vec<String> {
         for _ in 0..r.below(3) { let n = r.below(60) as usize; calls.push(format!("w,{}", hex(&b"abcabcabd".repeat(n / 9 + 1)[..n]))); }
     }
     calls.push(if r.chance(3, 4) { "fin".into() } else { "drop".into() });
+    // callers retry: a second finish after a failed one (and the implicit finalisation on drop after that)
+    if r.chance(1, 2) && calls.last().unwrap() == "fin" { calls.push("fin".into()); }
     calls
+}
+
+/// Raw copy with the fault on the SOURCE archive's reader (a short-reading one): `raw_copy_file` must report a
+/// source read error, never return Ok for a truncated copy.  Returns (outcome tokens, source I/O calls, result).
+fn run_rawcopy(src: Vec<u8>, chunk: usize, k: Option<u64>) -> (String, u64, Option<String>) {
+    struct Short { inner: FaultIo, chunk: usize }
+    impl Read for Short { fn read(&mut self, buf: &mut [u8]) -> std::io::Result<usize> { let n = buf.len().min(self.chunk.max(1)); self.inner.read(&mut buf[..n]) } }
+    impl Seek for Short { fn seek(&mut self, p: SeekFrom) -> std::io::Result<u64> { self.inner.seek(p) } }
+    let io = FaultIo::new(src, k);
+    let calls = io.calls.clone();
+    let r = catch(std::panic::AssertUnwindSafe(move || {
+        let mut toks = vec![];
+        let mut a = match zip::ZipArchive::new(Short { inner: io, chunk }) { Ok(a) => a, Err(e) => return (format!("open={}", super::read::cls_z(&e)), None) };
+        toks.push("open=ok".to_string());
+        let mut w = zip::ZipWriter::new(Cursor::new(vec![]));
+        let _ = w.start_file("before", zip::write::FileOptions::default().compression_method(zip::CompressionMethod::Stored));
+        let _ = w.write_all(b"first");
+        let mut all_ok = true;
+        for i in 0..a.len() {
+            let t = match a.by_index_raw(i) {
+                Err(e) => { all_ok = false; super::read::cls_z(&e) }
+                Ok(f) => match w.raw_copy_file(f) { Ok(()) => "ok".to_string(), Err(e) => { all_ok = false; super::read::cls_z(&e) } },
+            };
+            toks.push(format!("rc{i}={t}"));
+        }
+        let _ = w.start_file("after", zip::write::FileOptions::default().compression_method(zip::CompressionMethod::Stored));
+        let _ = w.write_all(b"last");
+        match w.finish() {
+            // every call returned Ok: what the archive reads back as (an archive that does not read back at all is
+            // a result too: "unreadable")
+            Ok(c) => { toks.push("fin=ok".into()); let l = if all_ok { Some(listing(c.get_ref()).unwrap_or_else(|| "unreadable".into())) } else { None }; (toks.join(" "), l) }
+            Err(e) => { toks.push(format!("fin={}", super::read::cls_z(&e))); (toks.join(" "), None) }
+        }
+    }));
+    match r { Ok((s, l)) => (s, calls.get(), l), Err(_) => ("panic".into(), calls.get(), None) }
 }
 
 fn listing(bytes: &[u8]) -> Option<String> {
@@ -267,6 +304,22 @@ impl Stream for Fault {
                 let (_, n) = run_read(bytes.clone(), None);
                 g.push("read.free", format!("fault.read bytes={} k=none", hex(&bytes)));
                 for k in 0..n { g.push("read.k", format!("fault.read bytes={} k={k}", hex(&bytes))); }
+            } else if i % 8 == 7 {
+                // raw copy with the fault on the source reader (oracle only)
+                let src = {
+                    let mut w = zip::ZipWriter::new(Cursor::new(vec![]));
+                    for j in 0..r.range(1, 3) {
+                        let o = zip::write::FileOptions::default().compression_method(*r.pick(&[zip::CompressionMethod::Stored, zip::CompressionMethod::Deflated]));
+                        let _ = w.start_file(format!("s{j}"), o);
+                        let n = r.range(20, 400) as usize;
+                        let _ = w.write_all(&r.bytes(n));
+                    }
+                    w.finish().map(|c| c.into_inner()).unwrap_or_default()
+                };
+                let chunk = *r.pick(&[1usize, 7, 64, 100000]);
+                let (_, n, _) = run_rawcopy(src.clone(), chunk, None);
+                g.push("rawcopy.free", format!("fault.rawcopy src={} chunk={chunk} k=none", hex(&src)));
+                for k in 0..n { g.push("rawcopy.k", format!("fault.rawcopy src={} chunk={chunk} k={k}", hex(&src))); }
             } else if i % 4 == 3 {
                 // encrypted / compressed read scenario, small caller buffers, retry after an error (oracle only)
                 let (bytes, pw) = enc_archive(&mut r);
@@ -306,7 +359,7 @@ impl Stream for Fault {
                 let (s, n) = run_read(get_hex(&a, "bytes").unwrap_or_default(), k);
                 format!("{s} ncalls={n}")
             }
-            "fault.enc" | "fault.writec" => "oracle-only".into(),
+            "fault.enc" | "fault.writec" | "fault.rawcopy" => "oracle-only".into(),
             "fault.write" => {
                 let calls: Vec<String> = a.get("calls").map(|c| c.split(';').map(|s| s.to_string()).collect()).unwrap_or_default();
                 if calls.is_empty() { return "bad-op".into(); }
@@ -327,6 +380,20 @@ impl Stream for Fault {
         }
         let (op, a) = parse_line(line);
         let k = k_of(&a);
+        if op == "fault.rawcopy" {
+            let src = get_hex(&a, "src").unwrap_or_default();
+            let chunk = get_u64(&a, "chunk").unwrap_or(7) as usize;
+            let (res, _, l) = run_rawcopy(src.clone(), chunk, k);
+            if res.contains("panic") { f.push(OracleFailure { what: format!("panic under an injected fault on the source of a raw copy: k={k:?}") }); return f; }
+            if k.is_some() {
+                if let Some(lk) = l {
+                    // every call returned Ok: the copy must be what the failure-free run produces
+                    let (_, _, lf) = run_rawcopy(src, chunk, None);
+                    if Some(&lk) != lf.as_ref() { f.push(OracleFailure { what: format!("raw copy: every call succeeded under a fault on the source reader but the archive differs from the fault-free run: {lk:?} vs {lf:?}") }); }
+                }
+            }
+            return f;
+        }
         if op == "fault.enc" {
             let bytes = get_hex(&a, "bytes").unwrap_or_default();
             let pw = get_hex(&a, "pw").unwrap_or_default();
